@@ -1,0 +1,1 @@
+//! Verification hooks: datasection (see mod.rs).
